@@ -226,6 +226,8 @@ def r4(ctx):
                 tests = f.tests(lambda e: isinstance(e, ast.Name) and e.id == inst)
                 ok = bool(tests) and all(f.cfg.dominates(f.branch(t, "true").id, n.id) for t in tests for n in fn_nodes)
                 ctx.check(ok, R, f"{lab}:only-known-entities", m, ups[0], "update only when the lookup found an entity", "unguarded")
+                extra = _extra_guards(f, fn_nodes, {inst})
+                ctx.check(not extra, R, f"{lab}:every-known-entity", m, ups[0], "every record of a known entity is applied (no further condition)", "update additionally guarded by: " + ", ".join(extra))
         # error info dispatch
         f = fn_of(ctx, modname, f"{clsname}._process_ac_error_info_message")
         p = f.params[1]
@@ -233,6 +235,25 @@ def r4(ctx):
         ups = [c for n, c in f.calls("update_ac_error_info")]
         ok = len(gets) == 1 and norm_text(gets[0].args[0]) == f"{p}.ac_number" and len(ups) == 1 and norm_text(ups[0].args[0]) == f"{p}.error_info"
         ctx.check(ok, R, f"{clsname}._process_ac_error_info_message", m, f.node, f"AC looked up by {p}.ac_number and given {p}.error_info", "; ".join(norm_text(x) for x in gets + ups))
+        un = [n for n, c in f.calls("update_ac_error_info")]
+        extra = _extra_guards(f, un, {"ac_instance"})
+        ctx.check(not extra, R, f"{clsname}._process_ac_error_info_message:unconditional-for-known-ac", m, f.node, "every error-information frame for a known AC updates it (also an empty text, which clears the stored one)", "update additionally guarded by: " + ", ".join(extra))
+
+
+def _extra_guards(f, nodes, allowed_names):
+    """Conditions (other than truthiness / is-not-None of the allowed names) that dominate the given nodes."""
+    out = []
+    for t in f.cfg.nodes:
+        if t.kind != "test":
+            continue
+        for lbl in ("true", "false"):
+            b = f.branch(t, lbl)
+            if nodes and all(f.cfg.dominates(b.id, n.id) for n in nodes):
+                names = {x.id for x in ast.walk(t.ast) if isinstance(x, ast.Name)}
+                simple = isinstance(t.ast, ast.Name) or (isinstance(t.ast, ast.Compare) and isinstance(t.ast.comparators[0], ast.Constant) and t.ast.comparators[0].value is None)
+                if not (names <= allowed_names and simple):
+                    out.append(("" if lbl == "true" else "not ") + norm_text(t.ast))
+    return out
 
 
 def r5(ctx):
